@@ -444,7 +444,7 @@ func c01Resize(c *Ctx, info *types.Info) {
 					if !ok || len(as.Lhs) != 1 {
 						return false
 					}
-					if canonPath(info, as.Lhs[0]) != path {
+					if lhsPath(info, as.Lhs[0]) != path {
 						return false
 					}
 					if val == "" {
@@ -463,7 +463,7 @@ func c01Resize(c *Ctx, info *types.Info) {
 	if ea := c.P.Func("vaxis.(*Vaxis).enterAltScreen"); ea != nil {
 		found := false
 		ast.Inspect(ea.Decl.Body, func(n ast.Node) bool {
-			if as, ok := n.(*ast.AssignStmt); ok && len(as.Lhs) == 1 && canonPath(info, as.Lhs[0]) == "Vaxis.refresh" {
+			if as, ok := n.(*ast.AssignStmt); ok && len(as.Lhs) == 1 && lhsPath(info, as.Lhs[0]) == "Vaxis.refresh" {
 				if tv := info.Types[as.Rhs[0]]; tv.Value != nil && tv.Value.String() == "true" {
 					found = true
 				}
@@ -540,11 +540,11 @@ func c01Pen(c *Ctx, info *types.Info, render *FuncInfo, g *FG, rems []*Emission)
 	renderCalls := rg.Calls(func(fn *types.Func, _ *ast.CallExpr) bool { return fn != nil && repoName(fn) == "vaxis.Vaxis.render" })
 	isCursorSave := func(n ast.Node) bool {
 		as, ok := n.(*ast.AssignStmt)
-		return ok && len(as.Lhs) == 1 && canonPath(info, as.Lhs[0]) == "Vaxis.cursorLast" && canonPath(info, as.Rhs[0]) == "Vaxis.cursorNext"
+		return ok && len(as.Lhs) == 1 && lhsPath(info, as.Lhs[0]) == "Vaxis.cursorLast" && canonPath(info, as.Rhs[0]) == "Vaxis.cursorNext"
 	}
 	isRefreshClear := func(n ast.Node) bool {
 		as, ok := n.(*ast.AssignStmt)
-		if !ok || len(as.Lhs) != 1 || canonPath(info, as.Lhs[0]) != "Vaxis.refresh" {
+		if !ok || len(as.Lhs) != 1 || lhsPath(info, as.Lhs[0]) != "Vaxis.refresh" {
 			return false
 		}
 		tv := info.Types[as.Rhs[0]]
